@@ -43,6 +43,7 @@
 
 #include "config.h"
 #include "src/common/hostlist.h"
+#include "src/common/list.h"
 #include "src/common/err.h"
 #include "src/common/xmalloc.h"
 #include "src/common/xstring.h"
@@ -116,6 +117,7 @@ static int sigq[32], nsigq;
 
 /* monitors */
 static int inflight, peak, peak_step = -1, early_return, nfwd;
+static long inline_run, spin_limit = 200000;
 static long nsteps_spurious;
 
 /* ------------------------------------------------------------------ utilities */
@@ -738,9 +740,13 @@ struct op *sched_do(struct op o)
     if (!me) sched_bug("wrapped call from an unknown thread");
     me->pend = o;
     if (!(yield_mask & o.cls) && o.kind != OP_WAIT && op_enabled(me)) {
-        apply(me, 0, 1);        /* not a scheduling point */
+        /* not a scheduling point; a thread that performs operations forever without ever reaching
+         * a scheduling point is reported (status=spin) instead of filling the disk */
+        if (++inline_run > spin_limit) finish("spin", 0);
+        apply(me, 0, 1);
         return &me->pend;
     }
+    inline_run = 0;
     if (me->eager) {            /* first scheduling point of a new thread: hand back to the creator */
         me->eager = 0;
         sem_post(&handback);
@@ -978,6 +984,7 @@ int main(int argc, char **argv)
         else if (!strcmp(k, "yield")) yield_mask = yield_of(v);
         else if (!strcmp(k, "inline")) trace_inline = atoi(v);
         else if (!strcmp(k, "budget")) budget = atol(v);
+        else if (!strcmp(k, "spinlimit")) spin_limit = atol(v);
         else if (!strcmp(k, "seed")) { rng = 88172645463325252ULL ^ ((uint64_t) atoll(v) * 0x9e3779b97f4a7c15ULL); if (!rng) rng = 1; rnd(); rnd(); }
         else if (!strcmp(k, "spurious")) { spur_rate = atoi(v); v = strtok(NULL, " \t\n"); spur_max = v ? atoi(v) : 1000000; }
         else if (!strcmp(k, "tickrate")) tick_rate = atoi(v);
@@ -1042,6 +1049,12 @@ int main(int argc, char **argv)
 
     err_init("pdsh");
     opt.cmd = Strdup(cmd ? cmd : "true");
+    if (pers == PCP) {          /* pdcp: dsh() builds the remote command itself, workers are _rcp_thread */
+        opt.remote_program_path = "/usr/bin/pdcp";
+        opt.outfile_name = "/tmp/dest";
+        opt.infile_names = list_create(NULL);
+        list_append(opt.infile_names, "/etc/hostname");
+    }
     opt.wcoll = hostlist_create(NULL);
     for (i = 0; i < nvhosts; i++)
         hostlist_push_host(opt.wcoll, vhosts[i].name);
